@@ -10,7 +10,11 @@ SPEC = {
              "scheduler (the schedule token order is part of the case and is forced on the two relay goroutines). TCP: all "
              "pairs of short scripts (0-3 chunks, empty reads, EOF/error tails, tail fused with the last chunk) x ALL "
              "interleavings of the two goroutines; refused writes at every index, full close racing the other direction, "
-             "chunks around the 32 KiB copy buffer. UDP: every cut offset x every split position of short encodings with "
+             "chunks around the 32 KiB copy buffer. ENDPOINT KIND is a dimension of every TCP case: socket with CloseWrite / "
+             "iocopy.NewReadWriteCloser(conn, conn, closeFn) with reader = writer = one Close-only transport conn (exactly how "
+             "mapping/base.go, target_handler.go createTunnelRWC and socks5_tunnel.go build the tunnel side) / separate reader and "
+             "Close-only writer objects / writer with neither; all 16 kind pairs x all interleavings of the half-close orders, "
+             "the production pair (cw, same) on every second case of every other generator. UDP: every cut offset x every split position of short encodings with "
              "EOF and error tails, malformed/illegal-length and random streams, a flush-timer tick at every position of "
              "short datagram sequences, prefix/buffer size boundaries (255/256/65535/65536, half-full batch, 300 KB window), "
              "all interleavings of the two goroutines x every combination of endings (eof/err/blocked-until-closed). "
